@@ -439,6 +439,9 @@ func (sc *scenario) desc() string {
 		}
 		return s
 	}
+	if sc.Root == nil {
+		return fmt.Sprintf("fork=%s hand-written program (%d contracts) entry=%s gas=%d", sc.Fork, sc.NContract, sc.Tx.Entry, sc.Tx.Gas)
+	}
 	return fmt.Sprintf("fork=%s tree=%s", sc.Fork, walk(sc.Root))
 }
 
